@@ -184,7 +184,7 @@ def r1_r2(ctx):
         if clo[0] != "agg":
             continue
         cpath = clo[1].split(":", 1)[1]
-        cb = facts.bodies[cpath]
+        cb = (facts.bodies.get(cpath) or (getattr(facts, 'detached', None) or {})[cpath])
         ncv = none_case_value(facts, cb)
         ups = dict(clo[2])
         if ncv is None:
